@@ -1,6 +1,5 @@
-"""Native struct constructors for spec evaluation (the real afkak classes)."""
-from afkak.common import *  # noqa
-from afkak.common import (_JoinGroupRequestProtocol, _JoinGroupProtocolMetadata, _JoinGroupRequest,  # noqa
-                          _JoinGroupResponseMember, _JoinGroupResponse, _SyncGroupRequestMember,
-                          _SyncGroupMemberAssignment, _SyncGroupRequest, _SyncGroupResponse, _HeartbeatRequest,
-                          _HeartbeatResponse, _LeaveGroupRequest, _LeaveGroupResponse)
+"""Native struct constructors for spec evaluation (the real afkak classes, private ones included)."""
+import afkak.common as _c
+
+globals().update({n: getattr(_c, n) for n in dir(_c) if not n.startswith('__')})
+__all__ = [n for n in dir(_c) if not n.startswith('__')]
